@@ -1086,3 +1086,7 @@ TABLE["C12"] += [
       (IP + "declaration.py", "class ForwardDeclaration:", "Include.rule.ignore(cppStyleComment)\n\n\nclass ForwardDeclaration:"),
       (IP + "declaration.py", "from pyparsing import CharsNotIn, Optional  # type: ignore", "from pyparsing import CharsNotIn, Optional, cppStyleComment  # type: ignore")),
 ]
+TABLE["C19"] += [
+    B("recursive-template-argument-alternative-tried-first", {"Z5"},
+      (IP + "type.py", "delimitedList(Type.rule ^ rule, \",\")", "delimitedList(rule ^ Type.rule, \",\")")),
+]
